@@ -161,6 +161,25 @@ func ipamRandomWalk(h *ipamHist) {
 				if p.Sandbox {
 					h.writePod(p) // kubelet reports the pod's addresses
 				}
+			} else if p.Exists && p.Sandbox && p.Skip == "" && rng.Intn(3) == 0 {
+				// the runtime restarts the sandbox of a pod that stays (containerd restart, node reboot): DEL of
+				// the old sandbox, ADD of a new one for the same UID
+				h.cniDel(p, p.Container)
+				if p.Sandbox {
+					break // the DEL failed: kubelet retries before it starts anything new
+				}
+				if rng.Intn(3) != 0 {
+					h.flush()
+				}
+				h.mon.mu.Lock()
+				p.Restarts++
+				p.Container = fmt.Sprintf("c-%s-r%d", p.UID, p.Restarts)
+				h.mon.ev("sandbox of %s restarted (new container %s)", p.Name, p.Container)
+				h.mon.mu.Unlock()
+				h.cniAdd(p)
+				if p.Sandbox {
+					h.writePod(p)
+				}
 			}
 		case k < 78 && len(pods) > 0:
 			p := pods[rng.Intn(len(pods))]
